@@ -18,14 +18,15 @@
    Explicit inputs rather than modelled: the digest H, the report zone as (name, fixed offset), the effective
    configuration record (C19 is about how file and options combine), the wording of the equity WARNING block
    (EquityText.default_warn_lines).  Not covered: strict mode, regular-expression account selectors (literal
-   names only), named journal zones, Git / directory input, time-stamp filter leaves under a non-UTC report
-   zone (T06_spec.run_dom), partial output of a report that fails after the first write (result Err). *)
+   names only), named journal zones, Git / directory input (T07), partial output of a report that fails
+   after the first write (result Err; since /repo da90aec the one modelled cause is a converted amount out of range:
+   conv_overflow, and T06_run_total shows there is no other). *)
 From Coq Require Import ZArith List Permutation.
 From TkModel Require Import Base Dec Acct Txn Journal Balance Register Round Price Time Group.
-From TkModel Require Import ReportText T05_report PriceText T06_run.
-From TkModel Require MetaText Config.
-From TkSpec Require Import Price_spec ReportText_spec T05_spec T06_spec.
-From TkProofs Require Import T06_proofs.
+From TkModel Require Import ReportText T05_report PriceText T06_describe T06_run.
+From TkModel Require MetaText Config Codec.
+From TkSpec Require Import Price_spec ReportText_spec T05_spec T05_grp_spec T06_spec.
+From TkProofs Require Import T06_proofs T06_total_proofs.
 Local Open Scope Z_scope.
 
 (* ---------------------------------------------------------------- structure of the console text *)
@@ -127,6 +128,20 @@ Theorem T06_register_rows : forall H cfg j p out,
 Proof. exact console_register_rows. Qed.
 Print Assumptions T06_register_rows.
 
+(* ... and for the balance-group report: one block per period of the report zone, ascending, a block exactly for the
+   periods with a listed row, every block a balance text of exactly that period's transactions with figures = rounded
+   exact converted sums (T05_grp_spec.balgrp_text_spec, T05_balgrp_shown) *)
+Theorem T06_balgrp_figures : forall H cfg j p out,
+  run_console H cfg j p = Ok out -> In MetaText.RBalGroup (rc_targets cfg) ->
+  exists st, run_prepare H cfg j p = Ok st
+    /\ (run_hyp cfg st = true ->
+        exists pre head body post,
+          out = pre ++ (repeat 42%N 82 ++ [10%N]) ++ (head ++ body) ++ (repeat 35%N 82 ++ [10%N]) ++ post
+          /\ balgrp_text_spec (rc_title_grp cfg) (rc_scale cfg) (rc_group_by cfg) (rtz cfg) (rs_lk st) (rc_commodity cfg)
+                              (rs_file st) (sel_of cfg MetaText.RBalGroup) (rs_txns st) body).
+Proof. exact console_balgrp_figures. Qed.
+Print Assumptions T06_balgrp_figures.
+
 (* the decided hypotheses are the hypotheses of T05's theorems *)
 Theorem T06_run_hyp_sound : forall cfg st, run_hyp cfg st = true ->
   (sc_min (rc_scale cfg) <= sc_max (rc_scale cfg))%N
@@ -137,6 +152,27 @@ Theorem T06_run_hyp_sound : forall cfg st, run_hyp cfg st = true ->
   /\ reg_names_in (rc_commodity cfg) (ts_text cfg) (rs_txns st).
 Proof. exact run_hyp_sound. Qed.
 Print Assumptions T06_run_hyp_sound.
+
+(* ---------------------------------------------------------------- the reports are total *)
+(* once the preparation succeeded, the body of EVERY report exists, for any configuration of the reports (zone, scale,
+   selectors, titles, group-by): the posted accounts of a parsed journal are non-empty names, so the balance tree can
+   always be built *)
+Theorem T06_reports_total : forall H cfg j p st cfg' k,
+  run_prepare H cfg j p = Ok st -> exists body, report_body cfg' st k = Some body.
+Proof. exact report_body_total. Qed.
+Print Assumptions T06_reports_total.
+
+(* hence a run that got past its preparation fails only when a converted amount is out of range (checked_mul, /repo
+   da90aec: PriceLookupCtx::value_of), and a successful run with a report target met no such amount *)
+Theorem T06_run_total : forall H cfg j p st,
+  run_prepare H cfg j p = Ok st -> conv_overflow cfg st = false -> exists out, run_console H cfg j p = Ok out.
+Proof. exact console_total_run. Qed.
+Print Assumptions T06_run_total.
+
+Theorem T06_ok_no_overflow : forall H cfg j p out st,
+  run_console H cfg j p = Ok out -> run_prepare H cfg j p = Ok st -> rc_targets cfg <> [] -> conv_overflow cfg st = false.
+Proof. exact console_ok_no_overflow. Qed.
+Print Assumptions T06_ok_no_overflow.
 
 (* ---------------------------------------------------------------- all or nothing at run level *)
 (* a journal text that does not load, an empty selection, a transaction without uuid in audit mode, a price
@@ -229,6 +265,14 @@ Theorem T06_layout_invariance : forall H cfg p,
      /\ run_files H cfg (unlines (pre ++ ms ++ post)) p = run_files H cfg (unlines (pre ++ ms' ++ post)) p).
 Proof. exact layout_invariance. Qed.
 Print Assumptions T06_layout_invariance.
+
+(* ---------------------------------------------------------------- the filter description under the report zone *)
+(* the Filter item of the metadata is T06_describe.describe_def_tz at the offset of the report zone (FilterDefZoned: the
+   bounds of the two time-stamp leaves are printed as rfc_3339 in that zone); at offset 0 it is Codec.describe_def, the
+   text C18's theorems speak about *)
+Theorem T06_filter_description_utc : forall f, describe_def_tz 0 f = Codec.describe_def f.
+Proof. exact describe_def_tz_utc. Qed.
+Print Assumptions T06_filter_description_utc.
 
 (* ---------------------------------------------------------------- the oracles of the check *)
 (* the boolean oracle evaluated on a report embedded in the BINARY's output decides the specification *)
